@@ -551,8 +551,11 @@ def build_unit(ws, unit_name):
                 m = re.match(r'final\s+(\d+)\s+"([^"]*)"', d)
                 pending["finals"][int(m.group(1))] = m.group(2)
             elif d.startswith("loop"):
+                # `loop k`: the k-th loop must exist; `loop? k`: annotate it if the body (still) has one
                 k = int(d.split()[1])
                 pending["loops"][k] = []
+                if d.split()[0] == "loop?":
+                    pending.setdefault("optional_loops", set()).add(k)
                 pending["cur"] = pending["loops"][k]
             elif d.startswith("after") or d.startswith("before"):
                 m = re.match(r'(after|before)\s+"((?:[^"\\]|\\.)*)"', d)
@@ -613,6 +616,8 @@ def build_unit(ws, unit_name):
                 hdrs = loop_headers(body)
                 for k in sorted(p["loops"], reverse=True):
                     if k > len(hdrs):
+                        if k in p.get("optional_loops", ()):
+                            continue
                         raise ExtractError("lost anchor: loop %d of `%s` not found" % (k, p["anchor"]))
                     _, b_idx = hdrs[k - 1]
                     body = body[:b_idx] + "\n" + "\n".join(p["loops"][k]) + "\n" + body[b_idx:]
@@ -678,7 +683,7 @@ def run_unit(scr, unit, tier):
     res["file"] = path
     # assumption scan
     for n, ln in enumerate(text.split("\n"), 1):
-        if re.search(r"external_body|assume_specification|\bassume\(|\badmit\(|verifier::truncate|verifier::external", ln) \
+        if re.search(r"external_body|assume_specification|\bassume\(|\badmit\(|verifier::truncate|verifier::external|exec_allows_no_decreases_clause", ln) \
                 and not ln.strip().startswith("//"):
             res["trusted"].append("verus unit %s line %d: %s" % (name, n, ln.strip()[:160]))
     rlimit = str(unit.get("rlimit", 30 if tier == "quick" else 100))
